@@ -5,58 +5,58 @@ typedef update_theta_sketch uts;
 typedef compact_theta_sketch cts;
 
 // public-API construction
-W uts* w_uts_build(uint8_t lg_k, int rf, float p, uint64_t seed) {
+WRAP uts* w_uts_build(uint8_t lg_k, int rf, float p, uint64_t seed) {
   try { return new uts(uts::builder().set_lg_k(lg_k).set_resize_factor((resize_factor)rf).set_p(p).set_seed(seed).build()); } catch (...) { return nullptr; }
 }
 // unit-level construction (private constructor): allows tables below the public minimum lg_k
-W uts* w_uts_new(uint8_t lg_cur, uint8_t lg_nom, int rf, float p, uint64_t theta, uint64_t seed) {
+WRAP uts* w_uts_new(uint8_t lg_cur, uint8_t lg_nom, int rf, float p, uint64_t theta, uint64_t seed) {
   return new uts(lg_cur, lg_nom, (resize_factor)rf, p, theta, seed, std::allocator<uint64_t>());
 }
-W void w_uts_delete(uts* s) { delete s; }
-W uts* w_uts_copy(const uts* s) { return new uts(*s); }
+WRAP void w_uts_delete(uts* s) { delete s; }
+WRAP uts* w_uts_copy(const uts* s) { return new uts(*s); }
 // state injection / inspection of the hash table
-W void w_uts_set_slot(uts* s, uint32_t i, uint64_t v) { s->table_.entries_[i] = v; }
-W void w_uts_set_num(uts* s, uint32_t n) { s->table_.num_entries_ = n; }
-W void w_uts_set_empty(uts* s, uint8_t e) { s->table_.is_empty_ = e; }
-W uint64_t w_uts_slot(const uts* s, uint32_t i) { return s->table_.entries_[i]; }
-W uint32_t w_uts_lg_cur(const uts* s) { return s->table_.lg_cur_size_; }
-W uint32_t w_uts_find(const uts* s, uint64_t key, int* found) { auto r = s->table_.find(key); *found = r.second; return (uint32_t)(r.first - s->table_.entries_); }
-W uint32_t w_uts_capacity(uint8_t lg_cur, uint8_t lg_nom) { return uts::theta_table::get_capacity(lg_cur, lg_nom); }
+WRAP void w_uts_set_slot(uts* s, uint32_t i, uint64_t v) { s->table_.entries_[i] = v; }
+WRAP void w_uts_set_num(uts* s, uint32_t n) { s->table_.num_entries_ = n; }
+WRAP void w_uts_set_empty(uts* s, uint8_t e) { s->table_.is_empty_ = e; }
+WRAP uint64_t w_uts_slot(const uts* s, uint32_t i) { return s->table_.entries_[i]; }
+WRAP uint32_t w_uts_lg_cur(const uts* s) { return s->table_.lg_cur_size_; }
+WRAP uint32_t w_uts_find(const uts* s, uint64_t key, int* found) { auto r = s->table_.find(key); *found = r.second; return (uint32_t)(r.first - s->table_.entries_); }
+WRAP uint32_t w_uts_capacity(uint8_t lg_cur, uint8_t lg_nom) { return uts::theta_table::get_capacity(lg_cur, lg_nom); }
 // updates: every overload. return 0 ok, 1 exception
-W int w_uts_update_u64(uts* s, uint64_t v) { try { s->update(v); return 0; } catch (...) { return 1; } }
-W int w_uts_update_i64(uts* s, int64_t v) { try { s->update(v); return 0; } catch (...) { return 1; } }
-W int w_uts_update_u32(uts* s, uint32_t v) { try { s->update(v); return 0; } catch (...) { return 1; } }
-W int w_uts_update_i32(uts* s, int32_t v) { try { s->update(v); return 0; } catch (...) { return 1; } }
-W int w_uts_update_u16(uts* s, uint16_t v) { try { s->update(v); return 0; } catch (...) { return 1; } }
-W int w_uts_update_i16(uts* s, int16_t v) { try { s->update(v); return 0; } catch (...) { return 1; } }
-W int w_uts_update_u8(uts* s, uint8_t v) { try { s->update(v); return 0; } catch (...) { return 1; } }
-W int w_uts_update_i8(uts* s, int8_t v) { try { s->update(v); return 0; } catch (...) { return 1; } }
-W int w_uts_update_f64(uts* s, double v) { try { s->update(v); return 0; } catch (...) { return 1; } }
-W int w_uts_update_f32(uts* s, float v) { try { s->update(v); return 0; } catch (...) { return 1; } }
-W int w_uts_update_bytes(uts* s, const uint8_t* p, uint64_t n) { try { s->update((const void*)p, (size_t)n); return 0; } catch (...) { return 1; } }
-W int w_uts_trim(uts* s) { try { s->trim(); return 0; } catch (...) { return 1; } }
-W int w_uts_reset(uts* s) { try { s->reset(); return 0; } catch (...) { return 1; } }
+WRAP int w_uts_update_u64(uts* s, uint64_t v) { try { s->update(v); return 0; } catch (...) { return 1; } }
+WRAP int w_uts_update_i64(uts* s, int64_t v) { try { s->update(v); return 0; } catch (...) { return 1; } }
+WRAP int w_uts_update_u32(uts* s, uint32_t v) { try { s->update(v); return 0; } catch (...) { return 1; } }
+WRAP int w_uts_update_i32(uts* s, int32_t v) { try { s->update(v); return 0; } catch (...) { return 1; } }
+WRAP int w_uts_update_u16(uts* s, uint16_t v) { try { s->update(v); return 0; } catch (...) { return 1; } }
+WRAP int w_uts_update_i16(uts* s, int16_t v) { try { s->update(v); return 0; } catch (...) { return 1; } }
+WRAP int w_uts_update_u8(uts* s, uint8_t v) { try { s->update(v); return 0; } catch (...) { return 1; } }
+WRAP int w_uts_update_i8(uts* s, int8_t v) { try { s->update(v); return 0; } catch (...) { return 1; } }
+WRAP int w_uts_update_f64(uts* s, double v) { try { s->update(v); return 0; } catch (...) { return 1; } }
+WRAP int w_uts_update_f32(uts* s, float v) { try { s->update(v); return 0; } catch (...) { return 1; } }
+WRAP int w_uts_update_bytes(uts* s, const uint8_t* p, uint64_t n) { try { s->update((const void*)p, (size_t)n); return 0; } catch (...) { return 1; } }
+WRAP int w_uts_trim(uts* s) { try { s->trim(); return 0; } catch (...) { return 1; } }
+WRAP int w_uts_reset(uts* s) { try { s->reset(); return 0; } catch (...) { return 1; } }
 // observers (public API)
-W uint64_t w_uts_theta(const uts* s) { return s->get_theta64(); }
-W uint64_t w_uts_raw_theta(const uts* s) { return s->table_.theta_; }
-W uint32_t w_uts_num(const uts* s) { return s->get_num_retained(); }
-W uint8_t w_uts_is_empty(const uts* s) { return s->is_empty(); }
-W uint8_t w_uts_is_est(const uts* s) { return s->is_estimation_mode(); }
-W uint8_t w_uts_is_ordered(const uts* s) { return s->is_ordered(); }
-W uint32_t w_uts_lg_k(const uts* s) { return s->get_lg_k(); }
-W double w_uts_estimate(const uts* s) { return s->get_estimate(); }
+WRAP uint64_t w_uts_theta(const uts* s) { return s->get_theta64(); }
+WRAP uint64_t w_uts_raw_theta(const uts* s) { return s->table_.theta_; }
+WRAP uint32_t w_uts_num(const uts* s) { return s->get_num_retained(); }
+WRAP uint8_t w_uts_is_empty(const uts* s) { return s->is_empty(); }
+WRAP uint8_t w_uts_is_est(const uts* s) { return s->is_estimation_mode(); }
+WRAP uint8_t w_uts_is_ordered(const uts* s) { return s->is_ordered(); }
+WRAP uint32_t w_uts_lg_k(const uts* s) { return s->get_lg_k(); }
+WRAP double w_uts_estimate(const uts* s) { return s->get_estimate(); }
 // iterate through the public iterator: writes up to cap hashes, returns the count seen
-W uint32_t w_uts_entries(const uts* s, uint64_t* out, uint32_t cap) { uint32_t n = 0; for (auto h : *s) { if (n < cap) out[n] = h; ++n; } return n; }
+WRAP uint32_t w_uts_entries(const uts* s, uint64_t* out, uint32_t cap) { uint32_t n = 0; for (auto h : *s) { if (n < cap) out[n] = h; ++n; } return n; }
 // compact forms
-W cts* w_uts_compact(const uts* s, uint8_t ordered) { try { return new cts(s->compact(ordered)); } catch (...) { return nullptr; } }
-W cts* w_cts_from_uts(const uts* s, uint8_t ordered) { try { return new cts(*s, ordered); } catch (...) { return nullptr; } }
-W void w_cts_delete(cts* c) { delete c; }
-W uint64_t w_cts_theta(const cts* c) { return c->get_theta64(); }
-W uint32_t w_cts_num(const cts* c) { return c->get_num_retained(); }
-W uint8_t w_cts_is_empty(const cts* c) { return c->is_empty(); }
-W uint8_t w_cts_is_ordered(const cts* c) { return c->is_ordered(); }
-W uint8_t w_cts_is_est(const cts* c) { return c->is_estimation_mode(); }
-W uint16_t w_cts_seed_hash(const cts* c) { return c->get_seed_hash(); }
-W uint32_t w_cts_entries(const cts* c, uint64_t* out, uint32_t cap) { uint32_t n = 0; for (auto h : *c) { if (n < cap) out[n] = h; ++n; } return n; }
-W uint64_t w_start_theta_from_p(float p) { return theta_build_helper<true>::starting_theta_from_p(p); }
-W uint8_t w_start_lg_size(uint8_t lg_k, int rf) { return theta_build_helper<true>::starting_sub_multiple(lg_k + 1, theta_constants::MIN_LG_K, (uint8_t)rf); }
+WRAP cts* w_uts_compact(const uts* s, uint8_t ordered) { try { return new cts(s->compact(ordered)); } catch (...) { return nullptr; } }
+WRAP cts* w_cts_from_uts(const uts* s, uint8_t ordered) { try { return new cts(*s, ordered); } catch (...) { return nullptr; } }
+WRAP void w_cts_delete(cts* c) { delete c; }
+WRAP uint64_t w_cts_theta(const cts* c) { return c->get_theta64(); }
+WRAP uint32_t w_cts_num(const cts* c) { return c->get_num_retained(); }
+WRAP uint8_t w_cts_is_empty(const cts* c) { return c->is_empty(); }
+WRAP uint8_t w_cts_is_ordered(const cts* c) { return c->is_ordered(); }
+WRAP uint8_t w_cts_is_est(const cts* c) { return c->is_estimation_mode(); }
+WRAP uint16_t w_cts_seed_hash(const cts* c) { return c->get_seed_hash(); }
+WRAP uint32_t w_cts_entries(const cts* c, uint64_t* out, uint32_t cap) { uint32_t n = 0; for (auto h : *c) { if (n < cap) out[n] = h; ++n; } return n; }
+WRAP uint64_t w_start_theta_from_p(float p) { return theta_build_helper<true>::starting_theta_from_p(p); }
+WRAP uint8_t w_start_lg_size(uint8_t lg_k, int rf) { return theta_build_helper<true>::starting_sub_multiple(lg_k + 1, theta_constants::MIN_LG_K, (uint8_t)rf); }
